@@ -837,7 +837,7 @@ def mutate(env, ci, j, rng, legal):
         if kind in INT_RANGE_KINDS:
             return (int(x) + (1 << 64)) if rng.random() < 0.5 else "12x"
         if kind == "enum":
-            return rng.choice(["NO_SUCH_VALUE", 1 << 31, [1]])
+            return rng.choice(["NO_SUCH_VALUE", "no_such", [1]])
         if kind == "bytes":
             return 5
         if kind == "datetime":
